@@ -11,7 +11,7 @@ ID = "C08"
 # C08_static_length, C08_prefix, C08_required, C08_free + the regenerated is_required/is_settable table)
 LEAN_TARGETS = ['OdxVerif.Props.C08']
 DRIVERS = ["drv_codec"]
-THEOREMS = ["OdxVerif.Codec." + t for t in ['C08_static_length_partial', 'C08_required_omission_fails', 'C08_condensed_counterexample', 'staticLen_encAll', 'encodeParams_missing']]
+THEOREMS = ["OdxVerif.Codec." + t for t in ['C08_static_length_partial', 'C08_required_omission_fails', 'C08_condensed_counterexample', 'C08_nested_cursor_counterexample', 'staticLen_encAll', 'encodeParams_missing']]
 RULE = ("well-formed descriptions (harness/odxgen/gen.py: corpus, every BYTE-SIZE structure size x offset, enumerated standard-length DOPs at every "
         "bit position, condensed/plain bit masks, random composites of the full envelope) x accepted value assignments: static length of the "
         "request/response/structure, of every parameter and every nested structure against stand-alone encodings; coded_const_prefix() against "
@@ -46,7 +46,19 @@ def corpus():
                                                                     val("v", u8(16))]), {"v": 0x1234}, bytes.fromhex("22f190"), None))
     out.append(("explicit-positions", C("RQ", "request", [val("b", u8(), bytepos=3), val("a", u8(12), bytepos=0, bitpos=2), D.reserved("r", 7, bytepos=2)]),
                 {"a": 0x123, "b": 9}, None, None))
+    # nested structure whose last *listed* parameter is not the one that extends furthest, followed by an implicitly positioned
+    # sibling: encoder and decoder leave the cursor behind the last listed inner parameter, the static length assumes the
+    # structure's full extent (open known finding; Lean: C08_nested_cursor_counterexample)
+    inner = D.Struct([val("a", u8(), bytepos=2), val("b", u8(), bytepos=0)])
+    out.append(("nested-struct-cursor", C("RQ", "request", [val("s", inner), val("x", u8())]), {"s": {"a": 1, "b": 2}, "x": 3}, None,
+                ["nested-structure-cursor-behind-last-listed-parameter"]))
     return out
+
+
+WHAT = {"condensed-bit-mask": "static bit length of a description with a condensed BIT-MASK differs from the length of its encoding",
+        "nested-structure-cursor-behind-last-listed-parameter":
+            "static bit length assumes that the parameter after a nested STRUCTURE starts behind the structure's full extent; encoder and "
+            "decoder place it behind the structure's last *listed* parameter"}
 
 
 def condensed_family(rng, n):
@@ -62,7 +74,7 @@ def condensed_family(rng, n):
 def one_case(ctx, rep, corr, c, obj, v, trig, family, rng, fixed_features=None, subsets=True):
     enc = O.impl_encode(obj, v, trig)
     sl = O.c08_static_length(ctx, rep, c, obj, enc, v, trig, fixed_features=fixed_features,
-                             what="static bit length of a description with a condensed BIT-MASK differs from the length of its encoding" if fixed_features else None)
+                             what=WHAT.get(fixed_features[0]) if fixed_features else None)
     pre = O.c08_prefix(ctx, rep, c, obj, enc, v, trig)
     if c.kind not in ("request", "structure") and trig is not None and enc.ok:
         # the prefix without knowledge of the request is a prefix as well
